@@ -30,3 +30,5 @@ func clip(ss []string) []string {
 }
 
 func jsonMarshalIndent(v any) ([]byte, error) { return json.MarshalIndent(v, "", " ") }
+
+func jsonUnmarshal(b []byte, v any) error { return json.Unmarshal(b, v) }
